@@ -21,7 +21,7 @@ RULE = ('well-formed files are produced by the independent spec serializer '
         'Non-trivial = file uses at least one foreign liberty or is a defect '
         'case; distinct = fingerprint of the bytes.')
 FLOOR = {'quick': 8000, 'thorough': 200000}
-REQUIRED_REACH = ['DiffXReader._read_content']
+REQUIRED_REACH = ['reader.py:']
 REQUIRED_COUNTERS = ['wellformed_files', 'defects_checked',
                      'style:crlf_headers', 'style:blank_lines',
                      'style:shuffled', 'style:no_encoding_anywhere']
